@@ -221,10 +221,111 @@ def rule_loss_gradient_inputs(repo, rep):
       rep.derived(R, b, site(fb))
 
 
+# ------------------------------------------- loss / gradient formula rule
+from ..ratfunc import Rat, LinM, eval_expr
+
+
+def rule_formulas(repo, rep):
+  R = 'R-FORM:lsml-loss-and-gradient'
+  rep.rule(R, 'the per-constraint loss is w (sqrt(d_ab) - sqrt(d_cd))^2 on '
+           'violated constraints (d_ab > d_cd), the regulariser is '
+           'tr(M M0^-1) - logdet M, and the coefficients of v_ab v_ab^T and '
+           'v_cd v_cd^T in _gradient are the derivatives of that loss term '
+           'with respect to d_ab and d_cd (derived symbolically), plus '
+           'M0^-1 - M^-1')
+  fl = repo.get_func('lsml._BaseLSML._comparison_loss')
+  fg = repo.get_func('lsml._BaseLSML._gradient')
+  ft = repo.get_func('lsml._BaseLSML._total_loss')
+  sa, sc = Rat.sym('sa'), Rat.sym('sc')
+  env = {'dab[violations]': sa * sa, 'dcd[violations]': sc * sc,
+         'dab': sa * sa, 'dcd': sc * sc}
+  # loss term
+  ret = [r for r in ast.walk(fl.node) if isinstance(r, ast.Return)]
+  term = None
+  wexpr = None
+  if ret and isinstance(ret[0].value, ast.Call) and \
+          isinstance(ret[0].value.func, ast.Attribute) and \
+          ret[0].value.func.attr == 'dot' and len(ret[0].value.args) == 1:
+    wexpr = ast.unparse(ret[0].value.func.value)
+    term = eval_expr(ret[0].value.args[0], {}, {}, env)
+  want_term = (sa - sc) * (sa - sc)
+  if term is None:
+    rep.unknown(R, 'lsml._BaseLSML._comparison_loss', site(fl), 'loss term '
+                'not derivable')
+    return
+  ok = term == want_term and wexpr == 'self.w_[violations]'
+  rep.add(R, 'lsml._BaseLSML._comparison_loss:term', 'derived' if ok else
+          'refuted', site(fl, ret[0]), '' if ok else 'loss term is %s . %r, '
+          'documented w . (sqrt(dab) - sqrt(dcd))^2' % (wexpr, term),
+          sample=dict(rule=R, loss_term=repr(term), weights=wexpr))
+  vio = [v for (n, v) in guards.assignments(fl.node, 'violations')
+         if v is not None]
+  # ties contribute a vanishing term: >= is equivalent to >
+  okv = vio and ast.unparse(vio[0]) in ('dab > dcd', 'dcd < dab',
+                                        'dab >= dcd', 'dcd <= dab')
+  rep.add(R, 'lsml._BaseLSML._comparison_loss:violations', 'derived' if okv
+          else 'refuted', site(fl), '' if okv else 'violated constraints are '
+          '%s, documented d_ab > d_cd' % (ast.unparse(vio[0]) if vio else None))
+  # regulariser
+  reg = [v for (n, v) in guards.assignments(ft.node, 'reg_loss')
+         if v is not None]
+  okr = reg and ast.unparse(reg[0]) in (
+      'np.sum(metric * prior_inv) - sign * logdet',
+      'np.trace(metric.dot(prior_inv)) - sign * logdet',
+      'np.sum(metric * prior_inv) - logdet')
+  rep.add(R, 'lsml._BaseLSML._total_loss:regulariser', 'derived' if okr else
+          'unknown', site(ft), '' if okr else 'regulariser %s not recognised'
+          % (ast.unparse(reg[0]) if reg else None))
+  # gradient
+  d0 = [v for (n, v) in guards.assignments(fg.node, 'dMetric')
+        if v is not None]
+  atoms = {'prior_inv': 'M0inv', 'np.linalg.inv(metric)': 'Minv',
+           'np.outer(vab, vab)': 'Vab', 'np.outer(vcd, vcd)': 'Vcd'}
+  base = eval_expr(d0[0], {}, atoms) if d0 else None
+  wantb = LinM.atom('M0inv') - LinM.atom('Minv')
+  rep.add(R, 'lsml._BaseLSML._gradient:regulariser',
+          'derived' if base == wantb else
+          ('unknown' if base is None else 'refuted'), site(fg),
+          '' if base == wantb else 'gradient of the regulariser is %r, '
+          'documented M0^-1 - M^-1' % (base,))
+  upd = [n for n in ast.walk(fg.node) if isinstance(n, ast.AugAssign) and
+         ast.unparse(n.target) == 'dMetric' and isinstance(n.op, ast.Add)]
+  if not upd:
+    rep.unknown(R, 'lsml._BaseLSML._gradient:terms', site(fg), 'no per-'
+                'constraint update found')
+    return
+  # the loop variable bound to the weights
+  loop = [n for n in ast.walk(fg.node) if isinstance(n, ast.For)]
+  wname = None
+  if loop and isinstance(loop[0].target, ast.Tuple) and \
+          isinstance(loop[0].iter, ast.Call):
+    for t, a in zip(loop[0].target.elts, loop[0].iter.args):
+      if ast.unparse(a) == 'self.w_[violations]':
+        wname = ast.unparse(t)
+  scal = {wname: 'w'} if wname else {}
+  g = eval_expr(upd[0].value, scal, atoms, env)
+  w_ = Rat.sym('w')
+  dterm_a = (want_term.diff('sa')) / (Rat.const(2) * sa)
+  dterm_c = (want_term.diff('sc')) / (Rat.const(2) * sc)
+  wantg = LinM.atom('Vab').scale(w_ * dterm_a) + \
+      LinM.atom('Vcd').scale(w_ * dterm_c)
+  if g is None or not isinstance(g, LinM):
+    rep.unknown(R, 'lsml._BaseLSML._gradient:terms', site(fg, upd[0]),
+                'per-constraint gradient not derivable')
+  elif g == wantg:
+    rep.derived(R, 'lsml._BaseLSML._gradient:terms', site(fg, upd[0]),
+                sample=dict(rule=R, gradient_term=repr(g)))
+  else:
+    rep.refuted(R, 'lsml._BaseLSML._gradient:terms', site(fg, upd[0]),
+                'per-constraint gradient is %r, the derivative of the loss '
+                'term is %r' % (g, wantg))
+
+
 def check(repo, rep, tier):
   rule_acceptance(repo, rep)
   rule_spd_floor(repo, rep)
   rule_loss_gradient_inputs(repo, rep)
+  rule_formulas(repo, rep)
   # the caller's weights are not modified (FRESH rule of C17, LSML only)
   before = len(rep.obs)
   c17.rule_writes(repo, rep)
@@ -232,3 +333,5 @@ def check(repo, rep, tier):
                       if o['construct'].startswith(('LSML.fit',
                                                     'LSML_Supervised.fit'))]
   rep.floors = [fl for fl in rep.floors if 'in-place' not in fl[0]]
+
+
